@@ -336,6 +336,9 @@ PTRef Logic::getDefaultValuePTRef(SRef const sref) const {
     if (sref == sort_BOOL) {
         return term_TRUE;
     } else {
+        if (not defaultValueForSort.has(sref)) {
+            throw ApiException("No default value for sort " + sortToString(sref));
+        }
         return defaultValueForSort[sref];
     }
 }
